@@ -211,7 +211,13 @@ func rpcTable(thorough bool) []*rpcDef {
 			},
 			call: func(w *wctx, m any) (any, error) {
 				evil.next, evil.armed = m.(*pb.Vertex), true
-				w.n0.Gossip.ProcessLackingParent(bg, pad32(filler(32, 0x41)))
+				// the malicious peer answers with the hash it was asked for whenever its answer carries a 32-byte hash
+				// (an answer for another hash may be dropped before any other field is looked at)
+				req := pad32(filler(32, 0x41))
+				if v := m.(*pb.Vertex); v != nil && len(v.Hash) == 32 {
+					req = pad32(v.Hash)
+				}
+				w.n0.Gossip.ProcessLackingParent(bg, req)
 				return nil, nil
 			}},
 	}
